@@ -218,6 +218,78 @@ Qed.
 Lemma c_walk_Resolves : forall (fs : fsys plain) segs d q, walk fs d segs = Some q <-> Resolves fs d segs q.
 Proof. exact (walk_Resolves plain). Qed.
 
+(* the limit is tight: a self-including file needs all 17 levels (16 nested directives + the document itself) *)
+Theorem c_total_tight :
+  exists (en : env plain) ns c doc a, c_add_doc_fuel (Some MAX_INCLUDE_DEPTH) MAX_INCLUDE_DEPTH 0 en ns c doc a = None.
+Proof.
+  exists (self_env plain), "default", CurNone, (self_doc plain), cstate_empty. vm_compute. reflexivity.
+Qed.
+
+(* inlining = concatenation in document (depth-first) order; no include-once *)
+Theorem c_inline_concat : forall en ns d c cs,
+    c_inline en ns d c cs
+    = flat_map (expand plain cerr en ns (srec plain cerr en ns d) c) cs.
+Proof.
+  intros en ns d c cs.
+  exact (inline_concat plain cstate cerr c_step c_touch c_log_call ceq ceq_refl ceq_sym ceq_trans c_step_ceq
+                       c_touch_ceq c_log_ceq en ns d c cs).
+Qed.
+
+Theorem c_include_twice : forall en ns d c name rest,
+    c_inline en ns d c (inl name :: inl name :: rest)
+    = expand plain cerr en ns (srec plain cerr en ns d) c (inl name)
+      ++ expand plain cerr en ns (srec plain cerr en ns d) c (inl name) ++ c_inline en ns d c rest.
+Proof.
+  intros en ns d c name rest.
+  exact (include_twice plain cstate cerr c_step c_touch c_log_call ceq ceq_refl ceq_sym ceq_trans c_step_ceq
+                       c_touch_ceq c_log_ceq en ns d c name rest).
+Qed.
+
+(* consequence for rules: a rule that compiled cannot be compiled a second time into the same namespace
+   (so a file holding a rule, included twice, is an error — duplicate rule, or its own rule-set prefix) *)
+Lemma get_ns_touch : forall st ns ns', get_ns (c_touch st ns) ns' = get_ns st ns'.
+Proof. intros st ns ns'. destruct (c_touch_ceq st ns) as (_ & _ & H). apply H. Qed.
+
+Lemma mem_str_app_r : forall x l, mem_str x (l ++ [x]) = true.
+Proof.
+  intros x l. unfold mem_str. rewrite existsb_app. cbn [existsb]. rewrite String.eqb_refl.
+  rewrite orb_true_r. reflexivity.
+Qed.
+
+Theorem c_rule_twice_fails : forall st ns r st1,
+    c_step (c_touch st ns) ns (PRule r) = (st1, None) ->
+    exists e, snd (c_step (c_touch st1 ns) ns (PRule r)) = Some e /\ (e = CDupRule \/ e = CWildcard).
+Proof.
+  intros st ns r st1 H. unfold c_step in H. rewrite get_ns_touch in H.
+  set (n := get_ns st ns) in *.
+  destruct (existsb (fun p => String.prefix p (r_name r)) (n_forbidden n)) eqn:Ef; [discriminate|].
+  destruct (compile_rule n r) as [e|] eqn:Ec; [discriminate|].
+  destruct (mem_str (r_name r) (n_rules n)) eqn:Em; [discriminate|].
+  set (n' := {| n_rules := n_rules n ++ [r_name r]; n_mods := n_mods n; n_forbidden := n_forbidden n ++ r_wild r |}) in *.
+  assert (Hn1 : get_ns st1 ns = n').
+  { destruct (r_global r); inversion H; subst st1;
+      (transitivity (get_ns (set_ns (c_touch st ns) ns n') ns);
+       [reflexivity | rewrite get_set, String.eqb_refl; reflexivity]). }
+  unfold c_step. rewrite get_ns_touch, Hn1.
+  destruct (existsb (fun p => String.prefix p (r_name r)) (n_forbidden n')) eqn:Ef'.
+  - exists CWildcard. split; [reflexivity|right; reflexivity].
+  - assert (Hc' : compile_rule n' r = None).
+    { unfold compile_rule in *. destruct (r_bad r); [discriminate|].
+      destruct (forallb (fun d => mem_str d (n_rules n)) (r_deps r)
+                && forallb (fun m => mem_str m (n_mods n)) (r_mods r)
+                && forallb (fun p => existsb (String.prefix p) (n_rules n)) (r_wild r)) eqn:Eall; [|discriminate].
+      apply andb_true_iff in Eall as [Eall E3]. apply andb_true_iff in Eall as [E1 E2].
+      cbn [n' n_rules n_mods].
+      assert (F1 : forallb (fun d => mem_str d (n_rules n ++ [r_name r])) (r_deps r) = true).
+      { rewrite forallb_forall in *. intros d Hd. specialize (E1 d Hd). unfold mem_str in *.
+        rewrite existsb_app, E1. reflexivity. }
+      assert (F3 : forallb (fun p => existsb (String.prefix p) (n_rules n ++ [r_name r])) (r_wild r) = true).
+      { rewrite forallb_forall in *. intros d Hd. specialize (E3 d Hd). rewrite existsb_app, E3. reflexivity. }
+      rewrite F1, E2, F3. reflexivity. }
+    rewrite Hc'. cbn [n' n_rules]. rewrite mem_str_app_r.
+    exists CDupRule. split; [reflexivity|left; reflexivity].
+Qed.
+
 (* the pinned tree: the same code without the limit does not return on a self-including file *)
 Theorem c_pinned_refuted :
   exists (en : env plain) ns c doc, forall fuel a, c_add_doc_fuel None fuel 0 en ns c doc a = None.
